@@ -31,7 +31,10 @@ ASSUMPTIONS = [
     "POSIX rename(2) replaces the destination atomically; a crash is modelled at system-call granularity (no torn single write, no power loss / fsync ordering)",
     "single fault per run; the failing call has no effect; a fault injected into the final rmtree itself is exempt from the no-temp-left requirement",
     "writers given a *.zip file name (nested atomic_write) are exercised by the fault injection but not modelled in Lean",
-    "the directory data store's own record writes (open_ without atomic_write) are only exercised by the resume injection",
+    "the directory data store's record write is modelled at file-operation granularity (Model/StoreWrite.lean: create / fill record, create / fill md5; "
+    "variant detected from the kill_open / kill_created injections); the drop of a stale not-completed record after a completed write and the log file are not in that model",
+    "atomic_write(path, tmpdir=D): modelled for the success path (programTmp); crash / fault points on that route are judged by the spec oracle only",
+    "zip-member faults: the failing zip_data call is the open of the archive (zipfile's own retry in 'w+b' is part of the model's handler); a failing close() writes nothing",
 ]
 
 STANDARD = ("plain", "gz", "json", "phylip")
